@@ -22,7 +22,7 @@ fn field_values() -> Vec<Vec<Box<dyn Fn(&mut CfgSpec) + Send + Sync>>> {
     vec![
         setters!(block_size, [0, 1, 31, 32, 33, 4096, 32767, 32768, 65535, 65536, (1usize << 32) + 64, m]),
         setters!(multithread, [false, true]),
-        setters!(workers, [None, Some(1), Some(2), Some(33)]),
+        setters!(workers, [None, Some(1), Some(2), Some(33), Some(m), Some(m / 2 + 1)]),
         setters!(ls, [false, true]),
         setters!(rs, [false, true]),
         setters!(ms, [false, true]),
